@@ -29,7 +29,9 @@ MUTANTS = [
     M("c10-assign-inverted", "C10", "break", [(QMOD, "            if assign_to_params_buffers:\n                self.weight = torch.nn.Parameter(deserialized_weight, requires_grad=False)", "            if not assign_to_params_buffers:\n                self.weight = torch.nn.Parameter(deserialized_weight, requires_grad=False)")], "C10.R9"),
     M("c10-refactor-assign-ifexp", "C10", "refactor", [(QMOD, "            assign_to_params_buffers = local_metadata.get(\"assign_to_params_buffers\", False)\n            if assign_to_params_buffers:", "            if local_metadata.get(\"assign_to_params_buffers\", False):")]),
     # ---------------- C13 in-place variants registered on scale-only handlers
-    M("c13-div-inplace-registered", "C13", "break", [(OPS, "@register_qbytestensor_op([torch.ops.aten.div])", "@register_qbytestensor_op([torch.ops.aten.div, torch.ops.aten.div_])")], "C13.R3"),
+    M("c13-div-inplace-registered", "C13", "break", [(OPS, "@register_qbytestensor_op([torch.ops.aten.div])", "@register_qbytestensor_op([torch.ops.aten.div, torch.ops.aten.div_])"),
+                                                    # since f7300c7 an activation owns its scale: the in-place division reaches a module buffer only with the copy removed
+                                                    ("optimum/quanto/tensor/qactivation.py", "SymmetricQuantizer.apply(t, qtype, None, scale.clone())", "SymmetricQuantizer.apply(t, qtype, None, scale)")], "C13.R6"),
     # (mul computes the new scale with `*`, so registering mul_ mutates nothing: not a C13 break, but the operand is not updated: C05)
     M("c05-mul-inplace-registered", "C05", "break", [(OPS, "@register_qbytestensor_op([torch.ops.aten.mul])", "@register_qbytestensor_op([torch.ops.aten.mul, torch.ops.aten.mul_])")], "C05.R16"),
     M("c05-div-inplace-registered", "C05", "break", [(OPS, "@register_qbytestensor_op([torch.ops.aten.div])", "@register_qbytestensor_op([torch.ops.aten.div, torch.ops.aten.div_])")], "C05.R16"),
